@@ -12,6 +12,54 @@ COMMON_NOTE = ("Trusted base: Lean 4.33 kernel; axioms ⊆ {propext, Classical.c
                "by exact-float inputs or bounded by a tolerance. ")
 
 CLAIMS = {
+    'C02': dict(
+        text="The cache protocol of TreeNeuron is modelled as a state machine over the events navis actually executes (checksum stamp, sticky "
+             "stale flag, lock, per-entry content tags, `type` column, clear with the literal exclude rule, the temp_property wrapper, copy, "
+             "pickling). Theorems (Props/C02.lean, 19, none partial), for every history of any length: if the stamp is current every cached "
+             "entry is current; a wrapped read on an unlocked neuron never returns a value computed before a change — for every call site of a "
+             "table REGENERATED from the source on each run (TEMP_ATTR, CORE_DATA, wrapped views, 50 exclude literals, shapes of is_stale / "
+             "_clear_temp_attr / wrapper / copy / __getstate__); views depend only on hashed columns (except simple/radius); removing an "
+             "explicit clear keeps the theorem true (the checksum catches it); edit/undo without the freshness assumption for lock-free "
+             "histories; negations with concrete witnesses (simple without the wrapper, ABA after a locked co-edit, permanently stale type "
+             "column). Tie: per-primitive trace refinement of the real object against the model on random histories (31 operations, direct "
+             "edits, table replacement, copy, pickle, 4 back-end configurations); property oracle: every derived view equals that of a "
+             "freshly constructed neuron.",
+        note="The content hash is assumed injective; history_fresh assumes changes yield content not seen before (ABA after a locked co-edit is "
+             "a recorded finding); reads inside locked operations are covered by C10/C01 correspondence; viewDeps is hand-written and "
+             "validated by the oracle only. Four open findings (simple without wrapper; checksum ABA; stale type after in-place parent edit; "
+             "simple depends on unhashed radius).",
+        technique="Lean 4 proof (invariant + list induction over an event model) over an ast-generated spec + trace refinement",
+        ref="§5 C02"),
+    'C06': dict(
+        text="Theorems (Props/C06.lean, 38): over an executable Rat model of Digitizer, Lookup2d, dist_dots, NBlaster and nblast/nblast_allbyall "
+             "(square roots kept as radicands, compared by squares): digitize returns the unique bin whose half-open interval contains the value "
+             "with clipping into the outer bins, equivalent to the declared interval labels; NBLAST as implemented (index bookkeeping, self "
+             "hits, reverse query, assembly) equals the index-free definition entry for entry with labels in input order; mean/min/max/both "
+             "are the stated combinations; self score is exactly 1 (computed path and short-cut); all-by-all = query-vs-self; normalised ≤ 1 "
+             "for every entry and mode with the default table without alpha — decided (`decide +kernel`) over the GENERATED tables and lifted; "
+             "with alpha a partial bound plus two kernel-checked counter-examples. Translator ties regenerated every run: both CSVs, the "
+             "`side=` expression, the `- 1` offset, the default clip, ALLOWED_SCORES. Tie: exact correspondence on bins and matches (values on "
+             "boundaries, both closednesses, limit_dist, float32), full score matrices compared in Rat to 2^-40, oracle clauses on real navis.",
+        note="normalised ≤ 1 is FALSE with use_alpha=True for the published table (two open findings — a property of the definition itself, not "
+             "repairable without changing the algorithm). kd-tree nearest neighbour and its strict bound are external (ties excluded by the "
+             "generator); IEEE sums carry the 2^-40 tolerance; smat None/'v1'/callables are tests only.",
+        technique="Lean 4 proof (decide +kernel over generated score tables, lifted) + translator + exact differential correspondence",
+        ref="§5 C06"),
+    'C15': dict(
+        text="Theorems (Props/C15.lean, 34, over Rat, every to_compact prefix universally quantified): physical invariance of coordinates, "
+             "connectors and radii under * and / (scalar, 3- and 4-vectors) for skeletons, meshes and dotprops, hence of every derived "
+             "quantity; x*k/k = x and x+o-o = x for all four neuron types; connectors transformed like nodes; radius scaled only by * and /; "
+             "convert_units yields exactly one target unit with physical sizes preserved; map_units returns length/unit within the "
+             "round_smart bound, exactly when no rounding occurs, independent of how the unit is spelled; unit spellings normalise "
+             "equivalently; (units, name, id) preserved by every non-scaling operation class. Tie: correspondence for the units setter "
+             "(85 spellings, pint as parsing oracle), arithmetic and in-place forms, convert_units, map_units, string-valued distance "
+             "arguments of six functions, and a 47-operation metadata sweep over all four neuron types; Lean checker samePhysB on navis' output.",
+        note="pint parsing and the to_compact prefix are external inputs to the model (the prefix is read from navis' output; theorems hold for "
+             "every prefix). Dyadic data compared exactly, everything else within 2^-40 relative. VoxelNeuron arithmetic scales the units "
+             "themselves: physical invariance and convert_units fail for voxels (open findings); convert_units raises for per-axis skeleton units "
+             "(open). The units-lost-on-re-init defect was repaired by a fix: commit.",
+        technique="Lean 4 proof over a Rat units model + differential correspondence + metadata sweep",
+        ref="§5 C15"),
     'C16': dict(
         text="Theorems (Props/C16.lean, 28, unbounded, none partial): for every row function, detected magnitude and neuron kind / connector "
              "state, xform's stack → transform once → slice-by-counts returns exactly 'coordinates of nodes/vertices/points and connectors "
@@ -159,6 +207,9 @@ CLAIMS = {
         ref="§5 C09"),
 }
 
+# built but temporarily withdrawn while being adapted to a repaired /repo
+PENDING = {'C15'}
+
 NOT_YET = "not claimed at this commit: the Lean model / correspondence for this property is not built yet (work in progress, see DESIGN.md §5)"
 
 
@@ -167,7 +218,7 @@ def main():
     checks, na = [], []
     for p in props:
         pid = p['id']
-        if pid in CLAIMS:
+        if pid in CLAIMS and pid not in PENDING:
             c = CLAIMS[pid]
             checks.append({
                 'property_id': pid,
